@@ -481,7 +481,11 @@ func c18Run(c fw.Case) fw.Verdict {
 	P.Stop()
 	O.Stop()
 	var leaked map[string]int
-	for i := 0; i < 300; i++ {
+	censusRounds := 500 // x 10 ms; goroutines that are exiting need the scheduler, which a loaded machine grants late
+	if raceBuild() {
+		censusRounds = 1500
+	}
+	for i := 0; i < censusRounds; i++ {
 		leaked = orbitGoroutines()
 		if len(leaked) == 0 {
 			break
@@ -499,7 +503,7 @@ func c18Run(c fw.Case) fw.Verdict {
 		sort.Strings(sites)
 		site := strings.Fields(sites[0])[0]
 		return fw.Verdict{Status: fw.Violated, Key: "goroutine-leak@" + site, NonTrivial: true, Sig: v.Sig,
-			What: fmt.Sprintf("after %s at %s and closing every instance, goroutines created by go-orbit-db are still alive after 3 s: %s", action, moment, strings.Join(sites, "; "))}
+			What: fmt.Sprintf("after %s at %s and closing every instance, goroutines created by go-orbit-db are still alive after the census window: %s", action, moment, strings.Join(sites, "; "))}
 	}
 
 	lap("census done")
